@@ -44,6 +44,9 @@ def split_args(s):
     return out
 
 
+GLOBAL_SPEC_REC = {}
+
+
 class Registry:
     def __init__(self):
         self.classes = {}       # class simple name -> klass dict
@@ -318,10 +321,13 @@ class Registry:
         ctx = it.ctx
         sig = sf["recursive"]      # [param sorts..., result sort] as strings, e.g. ["Array[OptStr]","Int","Int"]
         key = "rec!" + name
+        if key in GLOBAL_SPEC_REC:
+            ctx.ufs[key] = GLOBAL_SPEC_REC[key]
         if key not in ctx.ufs:
             sorts = [self.sig_sort(ctx, s) for s in sig]
             f = z3.RecFunction(name, *sorts)
             ctx.ufs[key] = f
+            GLOBAL_SPEC_REC[key] = f
             # definition
             pnames = [a.arg for a in sf["node"].args.args]
             zargs = [z3.Const("%s!%s" % (name, p), s) for p, s in zip(pnames, sorts[:-1])]
@@ -733,3 +739,21 @@ X.Interp.spec_sqrt = _spec_sqrt
 X.Interp.spec_log = _spec_log
 X.Interp.spec_close = _spec_close
 X.Interp.spec_meta = _spec_meta
+
+
+def _spec_norm_cdf(self, e, fr):
+    return self.ctx.models.ext["scipy.stats.norm.cdf"](self.ctx.models, self, [self.ev(e.args[0], fr)], {}, fr, e)
+
+
+def _spec_vsum(self, e, fr):
+    v = self.ev(e.args[0], fr)
+    if isinstance(v, SOpt):
+        v = v.val
+    o = self.run.obj(v)
+    if isinstance(o, HList):
+        o = self.list_to_seq(o)
+    return self.ctx.models.vsum(self, o)
+
+
+X.Interp.spec_norm_cdf = _spec_norm_cdf
+X.Interp.spec_vsum = _spec_vsum
